@@ -22,7 +22,7 @@ BASE = dict(
     TopUps=S(6), MaxSteps=5, MaxSess=1, Limit=100, Pads=S(0), CreateConts=S(0),
     TwoEntries=False, BadRefs=False, WellBehaved=False, AskAfterFinal=True, KnownDebitNoFui=True, Lrsn0=0, Recharges=True, Traffic=S(), SinkAnswers=S(204), AddrKinds=S("none"), ContShapes=S("single"), ChidModes=S(0), UpdNfcs="{FALSE}",
     Events=False, EvTypes=S(""), Faults=S("none"), BadCreates=S(),
-    OpCfgs="{[vl |-> 0, vlp |-> 0, qvt |-> 0, th |-> 512]}",
+    BulkEvents=S(), OpCfgs="{[vl |-> 0, vlp |-> 0, qvt |-> 0, th |-> 512]}",
 )
 
 # operator configurations (volumeLimit, volumeLimitPDU, quotaValidityTime, volumeThresholdRate * 1024)
@@ -222,6 +222,10 @@ def cfg(pid, tier):
                MaxSteps=4 if q else 5),
             # names that need escaping inside a path segment; creates that carry oneTimeEventType (with and without being an
             # event); one-time events between the sessions
+            # events that carry more usage than one record holds, between creates of the same subscriber and consumer
+            sl("bulk", 300 if q else 2000, Consumers=S("a"), Events=True, BulkEvents=S(4000), MaxSess=3,
+               Modes=S("off"), Reqs=S(), Vols=S(1), TrigSets=S("none"), TopUps=S(), Recharges=False, AcctChoices=S((9, 1)),
+               MaxSteps=4 if q else 5),
             sl("kinds", 800 if q else 6000, Consumers=S("a%41", "x y", "50%"), Events=True, EvTypes=S("", "IEC", "PEC"), MaxSess=2,
                Modes=S("off"), Reqs=S(), Vols=S(1), TrigSets=S("none"), TopUps=S(), Recharges=False, AcctChoices=S((9, 1)),
                MaxSteps=4 if q else 5),
@@ -243,6 +247,8 @@ def to_behaviour(hist, bid, padmap):
         st = {k: x for k, x in st.items() if k != "sig"}
         if "pad" in st:
             st["pad"] = padmap(st["pad"])
+        if st.get("bulk"):
+            st["usage"] = [dict(rg="1", req=-1, conts=[dict(m="off", vol=1)] * st["bulk"])]
         if st["a"] == "traffic":
             for _ in range(st["n"]):
                 b["steps"].append(dict(a="create", u="9", s="t", c="t", onetime=True, usage=[], chid=0, pad=0))
